@@ -317,6 +317,10 @@ def check_relaxation(run, pkg, cls, pbc, nl, sel, slow):
                     sqm = any(x[0] == "call" and x[1] == "numpy.square" and any(y[0] == "call" and y[1] == ".sum" for y in walk(x)) for x in walk(v))
                     guess = ("qt2" if sq else "qt") if has_cmp else ("r4" if sqm else "r2")
                 okk, how, gx, gy = eq_terms(v, K[guess])
+                if okk is None and pbc and not any(x[0] == "call" and x[1] == "PyMatterSim.utils.pbc.remove_pbc" for x in walk(v)):
+                    # the displacement is not handed to remove_pbc: an inline image, if any, is decided on its own (driver reports it)
+                    from . import grlib
+                    grlib.find_inline_image(strip_alloc(v))
                 run.ob("R-SIB", fq, f"{cfg}:kernel@{key_of(e)[:40]}", False if okk is False else None,
                        f"per-pair contribution equals the {guess} kernel of the definition (origin-frame cell / neighbour list / selection, "
                        f"{'<' if slow else '>'} for {'slow' if slow else 'fast'})",
